@@ -1246,6 +1246,9 @@ func (s *Server) lockKeysOf(tx *txn, t *Table, r Row) error {
 }
 
 func (s *Server) execInsert(tx *txn, st *ast.InsertStmt, args []Value) (*result, error) {
+	if tx != nil && tx.readOnly {
+		return nil, myErr(1792, "Cannot execute statement in a READ ONLY transaction.")
+	}
 	schema, name, err := singleTable(st.Table)
 	if err != nil {
 		return nil, err
@@ -1428,6 +1431,9 @@ func (s *Server) applyUpdate(tx *txn, t *Table, old, nr Row) error {
 // ---- UPDATE / DELETE ---------------------------------------------------------
 
 func (s *Server) execUpdate(tx *txn, st *ast.UpdateStmt, args []Value) (*result, error) {
+	if tx != nil && tx.readOnly {
+		return nil, myErr(1792, "Cannot execute statement in a READ ONLY transaction.")
+	}
 	schema, name, err := singleTable(st.TableRefs)
 	if err != nil {
 		return nil, err
@@ -1478,6 +1484,9 @@ func (s *Server) execUpdate(tx *txn, st *ast.UpdateStmt, args []Value) (*result,
 }
 
 func (s *Server) execDelete(tx *txn, st *ast.DeleteStmt, args []Value) (*result, error) {
+	if tx != nil && tx.readOnly {
+		return nil, myErr(1792, "Cannot execute statement in a READ ONLY transaction.")
+	}
 	if st.IsMultiTable {
 		return nil, myErr(1235, "memdb: multi-table DELETE is not supported")
 	}
